@@ -63,7 +63,7 @@ theorem MRel.consume {δ d skip : Nat} {ab : Ab} {sm : SeqMode} {ms mw : M κ} (
       rw [hrs, hrw] at hr
       have hl : LexRel δ d ab ms.c.nextPos ls lw := hr
       show LexRel δ d ab.inStep (ms.c.nextPos + ks) ls lw
-      exact { hl with ls_le := by have := hl.ls_le; omega, p := fun _ => by have := hl.ls_le; omega }
+      exact { hl with ls_le := by have := hl.ls_le; omega, p := (fun _ => by have := hl.ls_le; omega), ntu := (fun g n hn => leNonTag_mono (by omega) (hl.ntu g n hn)), ntp := (fun g _ n hn => leNonTag_mono (by omega) (hl.ntu g n hn)) }
   | scanner ss =>
     cases hrw : mw.r with
     | lexer lw => rw [hrs, hrw] at hr; exact hr.elim
@@ -112,7 +112,7 @@ theorem Ab.le_of_le_boundary {a e : Ab} (h : a.le e.boundary = true) : a.le e = 
   simp [Ab.boundary] at this
 
 section
-variable {env : Env κ} {inpS inpW : Bytes} {δ : Nat} {K : Nat → κ → κ → Prop}
+variable {env : Env κ} {inpS inpW : Bytes} {δ : Nat} {K : Nat → κ → κ → Prop} {Loc : κ → Nat → Nat → TextType → Prop}
 
 theorem preOf_skip (inp : Bytes) (sd : StateDef) (m : M κ) (h : (!sd.enter.isEmpty && !m.c.entered) = false) :
     preOf env inp sd m = (m, none) := by
@@ -133,7 +133,7 @@ theorem preOf_none (inp : Bytes) (sd : StateDef) (m : M κ) (h : (!sd.enter.isEm
   unfold preOf; simp only [h, if_true, hr]
 
 /-- **The enter phase.** -/
-theorem pre_sim (F : Frame inpS inpW δ) (hops : OpsSim env.ops inpS inpW δ K) {fs : FlagMap} {st : StateId} {sd : StateDef}
+theorem pre_sim (F : Frame inpS inpW δ) (hops : OpsSim env.ops inpS inpW δ K Loc) {fs : FlagMap} {st : StateId} {sd : StateDef}
     {d skip : Nat} {sm : SeqMode} {ms mw : M κ} (hlook : env.tbl.state? st = some sd) (hwf : WfChunkWith env.tbl fs = true)
     (hst : ms.c.state = st) (hrel : MRel δ d skip (flagsAt fs sd st ms.c.entered) sm ms mw) (hK : K d ms.x.sink mw.x.sink)
     (hsm : sm = .none ∨ (sm = .stale ∧ hasSeq sd = true ∧ (sd.enter.isEmpty = true ∨ ms.c.entered = true)))
@@ -148,7 +148,8 @@ theorem pre_sim (F : Frame inpS inpW δ) (hops : OpsSim env.ops inpS inpW δ K) 
       StepCtx env.tbl fs st sd (preOf env inpS sd ms).1.c ∧
       (preOf env inpS sd ms).1.c.nextPos = ms.c.nextPos ∧ (preOf env inpS sd ms).1.c.isLast = ms.c.isLast ∧
       (preOf env inpW sd mw).1.c.nextPos = mw.c.nextPos ∧
-      preOf env inpW sd (preOf env inpW sd mw).1 = ((preOf env inpW sd mw).1, none)) := by
+      preOf env inpW sd (preOf env inpW sd mw).1 = ((preOf env inpW sd mw).1, none) ∧
+      (0 < d → (preOf env inpS sd ms).1 = ms)) := by
   have hok := stOk_of (wf_state hwf hlook)
   cases hcond : (!sd.enter.isEmpty && !ms.c.entered) with
   | false =>
@@ -160,7 +161,7 @@ theorem pre_sim (F : Frame inpS inpW δ) (hops : OpsSim env.ops inpS inpW δ K) 
     have hfl : flagsAt fs sd st ms.c.entered = (fs st).2 := by
       unfold flagsAt; rw [hcond]; rfl
     rw [hfl] at hrel
-    exact ⟨rfl, rfl, hrel, hK, ⟨hlook, hok, hwf, hst, hent⟩, rfl, rfl, rfl, preOf_skip inpW sd mw hcondw⟩
+    exact ⟨rfl, rfl, hrel, hK, ⟨hlook, hok, hwf, hst, hent⟩, rfl, rfl, rfl, preOf_skip inpW sd mw hcondw, fun _ => rfl⟩
   | true =>
     simp only [Bool.and_eq_true, Bool.not_eq_true'] at hcond
     obtain ⟨hne, hnent⟩ := hcond
@@ -186,7 +187,7 @@ theorem pre_sim (F : Frame inpS inpW δ) (hops : OpsSim env.ops inpS inpW δ K) 
     rw [hfl] at hrel
     obtain ⟨hall, e, habs, hle⟩ := hok.enterN hne
     have hm1 := hrel.consume (by intro hh; cases hh) 1 1 (Nat.le_refl 1) (by have := hrel.c.nextPos; omega)
-    have hcalls := runCalls_sim F hops sd.enter habs hm1 hK (Or.inl rfl)
+    have hcalls := runCalls_sim F hops sd.enter habs hm1 hK (fun hh => absurd hh (Nat.lt_irrefl 0)) (Or.inl rfl)
       (fun cl hcl hr => by rw [enterOk_noRead (hall cl hcl)] at hr; cases hr)
     have hfixS := runCalls_cfix (env := env) (inp := inpS) sd.enter { ms with c := { ms.c with nextPos := ms.c.nextPos + 1 } }
     have hfixW := runCalls_cfix (env := env) (inp := inpW) sd.enter { mw with c := { mw.c with nextPos := mw.c.nextPos + 1 } }
@@ -219,7 +220,7 @@ theorem pre_sim (F : Frame inpS inpW δ) (hops : OpsSim env.ops inpS inpW δ K) 
             = (runCalls env inpS sd.enter { ms with c := { ms.c with nextPos := ms.c.nextPos + 1 } }).1.c.nextPos - 1 + δ := by
           have := hm1'.c.nextPos; omega
         refine ⟨rfl, rfl, ⟨{ hm1'.c with nextPos := hnp', entered := rfl }, ?_, hm1'.sim, hm1'.pc⟩, hk1,
-          ⟨hlook, hok, hwf, ?_, Or.inr rfl⟩, ?_, ?_, ?_, ?_⟩
+          ⟨hlook, hok, hwf, ?_, Or.inr rfl⟩, ?_, ?_, ?_, ?_, fun hh => absurd hh (Nat.lt_irrefl 0)⟩
         · exact hm1'.r.unconsume heP (Ab.le_of_le_boundary hle) hok.p2
         · show (runCalls env inpS sd.enter _).1.c.state = st
           rw [hfixS.2.2.1]; exact hst
@@ -304,7 +305,7 @@ theorem memchr_rel (F : Frame inpS inpW δ) (nd : UInt8) {nps npw skip : Nat} (h
 end
 
 section
-variable {env : Env κ} {inpS inpW : Bytes} {δ : Nat} {K : Nat → κ → κ → Prop}
+variable {env : Env κ} {inpS inpW : Bytes} {δ : Nat} {K : Nat → κ → κ → Prop} {Loc : κ → Nat → Nat → TextType → Prop}
 
 theorem brkParams_mk {sd : StateDef} {d skip : Nat} {ab : Ab} {sm : SeqMode} {ms0 mw0 : M κ}
     (h : MRel δ d skip ab sm ms0 mw0) (hsm : sm = .none ∨ (sm = .stale ∧ hasSeq sd = true)) (X Y : Nat)
@@ -319,14 +320,16 @@ theorem brkParams_mk {sd : StateDef} {d skip : Nat} {ab : Ab} {sm : SeqMode} {ms
       · rw [hns] at h'; cases h'⟩
 
 /-- **Consumption and dispatch.** -/
-theorem consume_sim (F : Frame inpS inpW δ) (hops : OpsSim env.ops inpS inpW δ K)
+theorem consume_sim (F : Frame inpS inpW δ) (hops : OpsSim env.ops inpS inpW δ K Loc)
     {fs : FlagMap} {st : StateId} {sd : StateDef} {d skip : Nat} {eoi : Bool} {sm : SeqMode} {ms0 mw0 : M κ}
     (cx : StepCtx env.tbl fs st sd ms0.c) (hrel : MRel δ d skip (fs st).2 sm ms0 mw0) (hK : K d ms0.x.sink mw0.x.sink)
+    (hloc : 0 < d → Loc ms0.x.sink ms0.x.prevConsumed (lexStart ms0.r) ms0.c.lastTextType)
     (hsm : sm = .none ∨ (sm = .stale ∧ hasSeq sd = true)) (hdebt : 0 < d → hasEoc sd = true)
     (hskip : 0 < skip → ∃ nd, sd.memchr = some nd ∧ SkipOk nd inpW mw0.c.nextPos skip)
     (hil : ms0.c.isLast = true → Closed inpS inpW δ) (heoi : eoi = false → ms0.c.isLast = false) :
-    LockOut env.tbl fs inpW δ K eoi (consume env inpS sd ms0) (consume env inpW sd mw0) ∨
-    BreakOut env.tbl fs env.ops inpS inpW δ d ms0.x mw0 (consume env inpS sd ms0) := by
+    LockOut env.tbl fs inpW δ K Loc eoi (consume env inpS sd ms0) (consume env inpW sd mw0) ∨
+    ((eoi = true → ¬ Closed inpS inpW δ) ∧
+      BreakOut env.tbl fs env.ops Loc inpS inpW δ d ms0.x mw0 (consume env inpS sd ms0)) := by
   have hsm' : sm ≠ .inSeq := by
     rcases hsm with h | ⟨h, _⟩ <;> rw [h] <;> intro hh <;> cases hh
   have hnp := hrel.c.nextPos
@@ -351,7 +354,7 @@ theorem consume_sim (F : Frame inpS inpW δ) (hops : OpsSim env.ops inpS inpW δ
       rw [hch]
       have hsome : inpS[ms0.c.nextPos]?.isSome = true := by
         rw [List.getElem?_eq_getElem hlt]; rfl
-      exact dispatch_lock F hops hcx1 _ hm1 hK hsm hdebt (fun _ => by show ms0.c.nextPos + 1 ≤ _; omega) hil heoi
+      exact dispatch_lock F hops hcx1 _ hm1 hK hloc hsm hdebt (fun _ => by show ms0.c.nextPos + 1 ≤ _; omega) hil heoi
         (fun hn => by rw [hn] at hsome; cases hsome) hbp
     · have hnone : inpS[ms0.c.nextPos]? = none := List.getElem?_eq_none (by omega)
       rw [hnone]
@@ -359,7 +362,7 @@ theorem consume_sim (F : Frame inpS inpW δ) (hops : OpsSim env.ops inpS inpW δ
       · have hch : inpW[mw0.c.nextPos]? = none := by
           rw [show mw0.c.nextPos = ms0.c.nextPos + δ by omega, F.get_closed hcl.2, hnone]
         rw [hch]
-        exact dispatch_lock F hops hcx1 none hm1 hK hsm hdebt (fun h => by cases h) hil heoi (fun _ => ⟨hcl.2, hcl.1⟩) hbp
+        exact dispatch_lock F hops hcx1 none hm1 hK hloc hsm hdebt (fun h => by cases h) hil heoi (fun _ => ⟨hcl.2, hcl.1⟩) hbp
       · right
         have hl : ms0.c.isLast = false := by
           cases hh : ms0.c.isLast with
@@ -368,7 +371,7 @@ theorem consume_sim (F : Frame inpS inpW δ) (hops : OpsSim env.ops inpS inpW δ
             cases he1 : eoi with
             | false => rw [heoi he1] at hh; cases hh
             | true => exact absurd ⟨he1, hil hh⟩ hcl
-        exact dispatch_end hops hcx1 hm1 hsm hdebt hl hbp
+        exact ⟨fun he1 hc => hcl ⟨he1, hc⟩, dispatch_end hops hcx1 hm1 hsm hdebt hl hbp hloc hK⟩
   | some nd =>
     simp only
     have hns : hasSeq sd = false := cx.ok.mem (by rw [hmem]; rfl)
@@ -397,7 +400,7 @@ theorem consume_sim (F : Frame inpS inpW δ) (hops : OpsSim env.ops inpS inpW δ
       rw [show ms0.c.nextPos + 1 + p = ms0.c.nextPos + (1 + p) by omega,
         show mw0.c.nextPos + 1 + (p + skip) = mw0.c.nextPos + (1 + (p + skip)) by omega]
       exact dispatch_tail_lock F hops hcx1 (some nd) (runSeqArms_noSeq inpS _ sd.arms _ hns)
-        (runSeqArms_noSeq inpW _ sd.arms _ hns) hm1 rfl rfl rfl hK hdebt
+        (runSeqArms_noSeq inpW _ sd.arms _ hns) hm1 rfl rfl rfl hK hloc hdebt
         (fun _ => by show ms0.c.nextPos + (1 + p) ≤ _; omega) (fun h => by cases h)
     | none =>
       rw [hf] at hmr
@@ -418,7 +421,7 @@ theorem consume_sim (F : Frame inpS inpW δ) (hops : OpsSim env.ops inpS inpW δ
         rw [show ms0.c.nextPos + 1 + (inpS.drop ms0.c.nextPos).length = ms0.c.nextPos + (1 + (inpS.drop ms0.c.nextPos).length) by omega,
           show mw0.c.nextPos + 1 + (inpW.drop mw0.c.nextPos).length = mw0.c.nextPos + (1 + (inpW.drop mw0.c.nextPos).length) by omega]
         exact dispatch_tail_lock F hops hcx1 none (runSeqArms_noSeq inpS _ sd.arms _ hns)
-          (runSeqArms_noSeq inpW _ sd.arms _ hns) hm1 rfl rfl rfl hK hdebt (fun h => by cases h) (fun _ => ⟨hcl, hcl'.1⟩)
+          (runSeqArms_noSeq inpW _ sd.arms _ hns) hm1 rfl rfl rfl hK hloc hdebt (fun h => by cases h) (fun _ => ⟨hcl, hcl'.1⟩)
       · right
         have hl : ms0.c.isLast = false := by
           cases hh : ms0.c.isLast with
@@ -437,12 +440,12 @@ theorem consume_sim (F : Frame inpS inpW δ) (hops : OpsSim env.ops inpS inpW δ
               = skip + (inpS.drop ms0.c.nextPos).length by omega]
             exact hsk'⟩)
         rw [show ms0.c.nextPos + 1 + (inpS.drop ms0.c.nextPos).length = ms0.c.nextPos + (1 + (inpS.drop ms0.c.nextPos).length) by omega]
-        exact dispatch_end hops hcx1 hm1 (Or.inl rfl) hdebt hl hbp
+        exact ⟨fun he1 hc => hcl' ⟨he1, hc⟩, dispatch_end hops hcx1 hm1 (Or.inl rfl) hdebt hl hbp hloc hK⟩
 
 end
 
 section
-variable {env : Env κ} {inpS inpW : Bytes} {δ : Nat} {K : Nat → κ → κ → Prop}
+variable {env : Env κ} {inpS inpW : Bytes} {δ : Nat} {K : Nat → κ → κ → Prop} {Loc : κ → Nat → Nat → TextType → Prop}
 
 /-- **The step lemma.** One state-function invocation from related machines: either both runs make the
 same step, or — only if the split input ends before the whole input — the split run breaks and its
@@ -451,15 +454,16 @@ run its enter actions (`stateFn mw0 = stateFn mw`). -/
 /- `eoi = true`: a common break of the two runs is reported as `LockOut` (used when the two inputs end
 together and nothing follows); `eoi = false` (only when not last): every break of the split run is reported
 as `BreakOut`, the whole run staying before the breaking step. -/
-theorem stateFn_sim (F : Frame inpS inpW δ) (hops : OpsSim env.ops inpS inpW δ K) {fs : FlagMap}
+theorem stateFn_sim (F : Frame inpS inpW δ) (hops : OpsSim env.ops inpS inpW δ K Loc) {fs : FlagMap}
     (hwf : WfChunkWith env.tbl fs = true) {d skip : Nat} (eoi : Bool) {ms mw : M κ}
     (hb : BRel env.tbl fs inpW δ d skip ms mw) (hK : K d ms.x.sink mw.x.sink)
+    (hloc : 0 < d → Loc ms.x.sink ms.x.prevConsumed (lexStart ms.r) ms.c.lastTextType)
     (hil : ms.c.isLast = true → Closed inpS inpW δ) (heoi : eoi = false → ms.c.isLast = false) :
-    LockOut env.tbl fs inpW δ K eoi (stateFn env inpS ms) (stateFn env inpW mw) ∨
-    (∃ (x0 : Ctx κ) (mw0 : M κ),
+    LockOut env.tbl fs inpW δ K Loc eoi (stateFn env inpS ms) (stateFn env inpW mw) ∨
+    ((eoi = true → ¬ Closed inpS inpW δ) ∧ ∃ (x0 : Ctx κ) (mw0 : M κ),
       stateFn env inpW mw0 = stateFn env inpW mw ∧ K d x0.sink mw0.x.sink ∧ mw0.x.sim = x0.sim ∧
       x0.prevConsumed = mw0.x.prevConsumed + δ ∧
-      BreakOut env.tbl fs env.ops inpS inpW δ d x0 mw0 (stateFn env inpS ms)) := by
+      BreakOut env.tbl fs env.ops Loc inpS inpW δ d x0 mw0 (stateFn env inpS ms)) := by
   obtain ⟨⟨sm, hbr, hside⟩, hpc⟩ := hb
   have hrel0 : MRel δ d skip (flagsOf env.tbl fs ms.c) sm ms mw := hbr.toMRel hpc
   rw [stateFn_eq env inpS ms, stateFn_eq env inpW mw, hrel0.c.state]
@@ -471,7 +475,7 @@ theorem stateFn_sim (F : Frame inpS inpW δ) (hops : OpsSim env.ops inpS inpW δ
     have hfl : flagsOf env.tbl fs ms.c = flagsAt fs sd ms.c.state ms.c.entered := by
       unfold flagsOf; rw [hlook]
     rw [hfl] at hrel0
-    rcases pre_sim F hops hlook hwf rfl hrel0 hK hs1 hs2 (fun h => (hs3 h).choose_spec.2.1) with hp | ⟨sg, sg', h1, h2, h3, h4⟩ | ⟨h1, h2, hrel, hK', cx, hnp, hlast, hnpw, hidem⟩
+    rcases pre_sim F hops hlook hwf rfl hrel0 hK hs1 hs2 (fun h => (hs3 h).choose_spec.2.1) with hp | ⟨sg, sg', h1, h2, h3, h4⟩ | ⟨h1, h2, hrel, hK', cx, hnp, hlast, hnpw, hidem, hsame⟩
     · left; left
       revert hp
       cases (preOf env inpS sd ms).2 with
@@ -491,9 +495,9 @@ theorem stateFn_sim (F : Frame inpS inpW δ) (hops : OpsSim env.ops inpS inpW δ
         intro h
         obtain ⟨nd, a, _, b⟩ := hs3 h
         exact ⟨nd, a, by rw [hnpw]; exact b⟩
-      rcases consume_sim F hops cx hrel hK' hsm' hs2 hskip' (by rw [hlast]; exact hil) (by rw [hlast]; exact heoi) with hl | hbo
+      rcases consume_sim F hops cx hrel hK' (fun hh => by rw [hsame hh]; exact hloc hh) hsm' hs2 hskip' (by rw [hlast]; exact hil) (by rw [hlast]; exact heoi) with hl | ⟨hncl, hbo⟩
       · exact Or.inl hl
-      · refine Or.inr ⟨(preOf env inpS sd ms).1.x, (preOf env inpW sd mw).1, ?_, hK', hrel.sim, hrel.pc, hbo⟩
+      · refine Or.inr ⟨hncl, (preOf env inpS sd ms).1.x, (preOf env inpW sd mw).1, ?_, hK', hrel.sim, hrel.pc, hbo⟩
         rw [stateFn_eq env inpW (preOf env inpW sd mw).1]
         have hstw : (preOf env inpW sd mw).1.c.state = ms.c.state := by
           rw [hrel.c.state, cx.st_eq]
